@@ -137,18 +137,18 @@ static void run(const int* ch, int ndev, void* ctxp) {
 }
 
 static void enumerate(void) {
-    mc_rule("C06: files written by the independent reference writer. Stage 1: every valid (repetition, definition) level sequence of up to 4/5 entries for each of 8 nesting contexts (flat required/optional, optional group, repeated leaf, 3-level list, "
-            "doubly repeated, required>optional>repeated) under three base layouts. Stage 2: every file with at most 2 (quick) / 3 (thorough) of 17 layout dimensions off the default, each deviating dimension over its whole alphabet: physical type (8 incl. INT96), "
+    mc_rule("C06: files written by the independent reference writer. Stage 1: every valid (repetition, definition) level sequence of up to 5/6 entries for each of 8 nesting contexts (flat required/optional, optional group, repeated leaf, 3-level list, "
+            "doubly repeated, required>optional>repeated) under three base layouts. Stage 2: every file with at most 3 (quick) / 4 (thorough) of 17 layout dimensions off the default, each deviating dimension over its whole alphabet: physical type (8 incl. INT96), "
             "nesting context, content, value encoding (PLAIN / PLAIN_DICTIONARY / RLE_DICTIONARY), 7 hybrid forms for levels and for indices, index bit width (minimal..32), page split, codec (5), CRC, statistics (new/deprecated/both/page), "
             "dictionary_page_offset present/absent, unknown Thrift fields (16 kinds x 2 positions in every struct), long-form headers, value pattern, row groups, and one unsupported feature (4 encodings, data page v2, BIT_PACKED levels, 3 codec ids). "
             "Oracle: carquet_column_read_batch returns exactly the stored def levels, rep levels and dense values; for unsupported features: an error or the correct values, never other values and never a silent end of data. "
             "Every reference file is first validated by the reference reader. Non-trivial = every file; distinct by choice-vector hash.");
     mc_assume("/verif/ref writer and reader follow the Parquet specification; they are cross-checked against each other on every generated file");
     /* stage 1: all valid level sequences per context */
-    int NL = mc_thorough() ? 5 : 4; static lvseq_t seqs[60000];
+    int NL = mc_thorough() ? 6 : 5; static lvseq_t seqs[600000];
     mc_stage("all-level-sequences.per-context");
     for (int cx = 0; cx < 8; cx++) for (int N = 1; N <= NL; N++) {
-        int ctx = cx <= 1 ? RF_CTX_FLAT : cx - 1; int n = gen_levels(ctx, cx == 0, N, seqs, 60000); if (n > 60000) mc_harness_error("sequence table too small");
+        int ctx = cx <= 1 ? RF_CTX_FLAT : cx - 1; int n = gen_levels(ctx, cx == 0, N, seqs, 600000); if (n > 600000) mc_harness_error("sequence table too small");
         for (int i = 0; i < n; i++) for (int base = 0; base < 3; base++) {
             if (!mc_next()) continue;
             int ch[ND]; memset(ch, 0, sizeof ch); ch[D_CTX] = cx; if (base == 1) { ch[D_ENC] = 2; ch[D_TYPE] = 6; ch[D_PATTERN] = 0; } if (base == 2) { ch[D_PAGES] = 3; ch[D_LFORM] = 2; ch[D_CODEC] = 1; }
@@ -157,6 +157,6 @@ static void enumerate(void) {
             run(ch, 0, &seqs[i]);
         }
     }
-    mc_deviations(DSZ, ND, mc_thorough() ? 3 : 2, "c06", DN, run, NULL);
+    mc_deviations(DSZ, ND, mc_thorough() ? 4 : 3, "c06", DN, run, NULL);
 }
 int main(int argc, char** argv) { return mc_main(argc, argv, "c06", enumerate); }
